@@ -385,7 +385,7 @@ def r4_player_two(ctx, chk, rule="C03.4"):
                "no call site in the solver can apply a next_states writer to a %s node (writers defined on its MRO: %s)" % (minc, [g.short for g in own] or "none"))
     # (b) the clearing store in Solver.prune_states
     f = ctx.func("tad.py::Solver.prune_states")
-    sx = SymX(ctx, f, "Solver", inline_depth=0).run()
+    sx = SymX(ctx, f, "Solver", inline_depth=2).run()
     slist = ("attr", ("v", "self"), "state_list")
     stores = []
     for l in sx.loops.values():
@@ -428,6 +428,27 @@ def r4_player_two(ctx, chk, rule="C03.4"):
 def _pointed_to_set(sx, coll, slist):
     """True if coll = {0} + every target of every transition of every state (list or set; nested append loops or a per-state
     extend/update with a comprehension); a text if recognisably incomplete; None if not recognised."""
+    if coll[0] == "cat" and coll[1] in (("list", (C(0),)), ("set", (C(0),))) and coll[2][0] == "compr":
+        # {0} | {t for (_, t) in chain.from_iterable(s.next_states for s in state_list)}
+        Lc = sx.loops[coll[2][1]]
+        src_t = Lc.source
+        flat = None
+        if src_t[0] == "call" and src_t[1] in ("itertools.chain.from_iterable", "chain.from_iterable") and len(src_t[2]) == 1:
+            flat = src_t[2][0]
+        elif src_t[0] == "mcall" and src_t[2] == "from_iterable" and len(src_t[3]) == 1 and src_t[1] in (("attr", ("v", "itertools"), "chain"), ("v", "chain")):
+            flat = src_t[3][0]
+        if flat is not None and flat[0] == "compr":
+            Li = sx.loops[flat[1]]
+            if Li.source != slist or not Li.whole or Li.filters or Li.elt != ("attr", ("elem", Li.id), "next_states"):
+                return "the flattened transitions do not cover every state's whole list (`%s`)" % show(src_t)
+            if Lc.filters:
+                return "targets are collected only if `%s`" % show(Lc.filters[0])
+            if not Lc.whole:
+                return "only a slice of the transitions is collected"
+            if Lc.elt != simp(("idx", ("elem", Lc.id), C(1))):
+                return "collects `%s`, not the successor index" % show(Lc.elt)
+            return True
+        return None
     if coll[0] != "res":
         return None
     Lo = sx.loops[coll[1]]
